@@ -3,16 +3,37 @@ import subprocess
 from props.bngen import window_digits, hx
 
 TRUSTED = [
-    "class A (modelled at digit level and proved): fp_addm/subm/negm/dblm/hlvm, Montgomery reduction fp_rdcn_low, fp_mulm/fp_sqrm, conversions",
-    "class C (compared with the Z/pZ specification only, not modelled): the seven inversion algorithms, the symbol algorithms, fp_exp_*, "
-    "fp_srt (Tonelli-Shanks etc.), fp_crt, fp_*_dig; their results are pinned by a*c = 1, r*r = a, Euler's criterion",
-    "the field context (p, u, conv, qnr) is read from the running library; its defining equations are evaluated by the driver and the "
-    "source tables are checked in C18",
+    "class A (modelled at digit level and proved, Model/Fp + Lemmas/Fp): fp_addm/subm/negm/dblm/hlvm, Montgomery reduction fp_rdcn_low, "
+    "fp_mulm/fp_sqrm, conversions",
+    "class A (modelled at value level over [0,p) with the loops, windows, tables, branches, Montgomery-domain conversions and error "
+    "conditions of the C function, Model/FpAlg, Model/FpAlgCrt; proved for every input in Props/C02B; the model's prediction is the model column of every "
+    "presented line): fp_exp_basic, fp_exp_slide (odd-power table + bn_rec_slw windows, refusal of exponents longer than RLC_FP_BITS+1 "
+    "bits), fp_exp_monty (ladder with conditional swaps), fp_exp_dig, the sign handling of negative exponents through fp_inv; "
+    "fp_inv_monty (Kaliski phase 1, reduction of x1, phase 2 with 2^(2m-k)), fp_inv_binar, fp_inv_exgcd, fp_inv_basic, fp_inv_lower / "
+    "fp_invm_low, fp_inv_sim (every list length >= 1, zero element -> error of fp_inv); fp_smb_basic / fp_smb_lower (Euler) = Legendre "
+    "symbol; fp_srt (p = 3 mod 4 branch and the constant-time Tonelli-Shanks branch, which covers p = 5 mod 8) and fp_is_sqr; the three "
+    "one-exponentiation branches of fp_crt (p = 2 mod 3, p = 4 mod 9, p = 7 mod 9). The models treat "
+    "fp_mul / fp_sqr / fp_neg as the Z/pZ operation (proved at digit level above) - the composition is by value, not by digits",
+    "fp_is_sqr and the flag of the Tonelli-Shanks branch of fp_srt call fp_smb = fp_smb_jmpds (FP_SMB = JMPDS), which is not modelled: the "
+    "model evaluates Euler's criterion instead, so on those lines the tie pins the value of fp_smb_jmpds, not its algorithm",
+    "class C (compared with the Z/pZ specification only, not modelled): fp_inv_divst, fp_inv_jmpds (Bernstein-Yang divsteps), fp_smb_binar "
+    "(Pornin), fp_smb_divst, fp_smb_jmpds, the general (p = 1 mod 9, cubic Tonelli-Shanks) branch of fp_crt and fp_is_cub, fp_add_dig / sub_dig / mul_dig; pinned by a*c = 1, Euler's criterion, r^3 = a",
+    "the Tonelli-Shanks loop is proved for every 2-adicity f, but the primes of the verified configurations only exercise f <= 2 (one "
+    "iteration without inner squarings); deeper iterations of the C loop are covered by the theorem about the model, not by the tie",
+    "the field context (p, u, conv, qnr, RLC_FP_BITS, RLC_WIDTH, 2-adicity, root of unity of fp_srt) is read from the running library; its "
+    "defining equations - which are the hypotheses Ctx.WF / Ctx.WFsrt of the theorems - are evaluated by the driver on every fp_param "
+    "line and the source tables are checked in C18",
 ]
-ASSUMPTIONS = ["FP_RDC = MONTY (the pinned configuration); the sparse-prime QUICK reduction is not the active path"]
+ASSUMPTIONS = ["FP_RDC = MONTY (the pinned configuration); the sparse-prime QUICK reduction is not the active path",
+               "FP_EXP = SLIDE, FP_INV = MONTY (the pinned configuration): the models of fp_exp / fp_inv used inside fp_inv_basic, fp_srt, "
+               "fp_smb_basic, fp_inv_sim and the negative-exponent path are the sliding-window and Kaliski models",
+               "primality of the six moduli is C18's subject (Pratt certificates); the theorems here take p.Prime as a hypothesis"]
 RULE = ("for each selectable prime: residues 0, 1, 2, p-1, p-2, (p±1)/2, values whose Montgomery form has zero / all-ones digits, small values, "
-        "non-residues, uniform residues; exponents 0, ±1, p-1, p, negative, longer than p; all algorithm variants by name; out==in aliasing; raw "
-        "digit-level calls with structured digits; non-trivial = distinct line with a non-error result")
+        "non-residues, uniform residues; exponents 0, ±1, shorter than the window, all-ones, sparse, p-2 .. p+1, RLC_FP_BITS and RLC_FP_BITS+1 "
+        "bits, longer, negative of each; every variant of exponentiation / inversion / symbol by name; inversion operands with tiny / power-of-two "
+        "Montgomery form (both phase-2 branches of Kaliski); fp_inv_sim of every length 1..9, 16, 17, 24 with a zero in every position class, "
+        "in place; out==in aliasing; raw digit-level calls with structured digits; non-trivial = distinct line with a non-error result")
+EXTRA_THEOREM_MODULES = ["RelicVerif.Props.C02B"]
 
 PRIMES = {"base": [14, 15, 16, 17, 27, 28]}   # NIST_256, BSI_256, SECG_256, SM2_256, BN_256, SM9_256 (ids printed by the library)
 
@@ -127,6 +148,67 @@ def root_sweep(rng, p, count):
     return out
 
 
+INVS = ["inv", "inv_basic", "inv_binar", "inv_monty", "inv_exgcd", "inv_divst", "inv_jmpds", "inv_lower"]
+
+
+def alg_sweep(rng, p, w, n, scale=1):
+    """the algorithm families modelled in Model/FpAlg (class A): every variant by name on the operands / exponents that select
+    each branch of its model.  Exponentiations: exponent 0, +-1, shorter than the window, all-ones, sparse, powers of two +-1,
+    p-2 .. p+1, exactly RLC_FP_BITS and RLC_FP_BITS+1 bits (accepted by the sliding window), longer (refused: known finding F16),
+    negative of each; bases 0, 1, p-1, uniform.  Inversions: 0, 1, 2, p-1, p-2, (p+-1)/2, powers of two, elements whose Montgomery
+    form is tiny / a power of two / p-1 (short and long runs of Kaliski's phase 1: k <= m and k > m), uniform.  Simultaneous
+    inversion: every length 1..9, 16, 17, 24, a zero in first / middle / last position, equal elements, in place.  Roots and
+    symbols: 0, 1, 4, p-1, squares, non-squares."""
+    R = 1 << (w * n)
+    Ri = pow(R, -1, p)
+    fb = w * n
+    out = []
+    uni = lambda: rng.bits(fb + 8) % p
+    bases = [0, 1, 2, p - 1, uni(), uni()]
+    exps = [0, 1, 2, 3, 5, 7, 8, 15, 16, 17, 31, 255, 256, 257, (1 << 64) - 1, 1 << 64, (1 << 64) + 1, (1 << 200) + (1 << 3),
+            (1 << 255) + 1, (1 << 128) - 1, 0x8001, 0x10000001, 0xf0f0f0f0f0f0f0f0, 0x1111111111111111, 0x9999999999999999,
+            p - 2, p - 1, p, p + 1, (p - 1) // 2, (p + 1) // 4, (1 << fb) - 1, 1 << (fb - 1), (1 << (fb - 1)) + 1,
+            1 << fb, (1 << fb) + 1, (1 << (fb + 1)) - 1, 1 << (fb + 1), (1 << (fb + 1)) + 5, rng.bits(fb), rng.bits(fb + 1) | (1 << fb),
+            rng.bits(100), rng.bits(12), rng.bits(fb + 30)]
+    for _ in range(scale):
+        for e in exps:
+            for sgn in (1, -1):
+                if e == 0 and sgn < 0:
+                    continue
+                for op in FPE:
+                    if rng.chance(1, 2) or e in (0, 1, p - 2, 1 << fb, 1 << (fb + 1)):
+                        out.append("fpe %s %d %x %s" % (op, rng.below(2), rng.choice(bases), hx(sgn * e)))
+        for d in [0, 1, 2, 3, 4, 5, 7, 8, 0xff, 1 << (w - 1), (1 << w) - 1, (1 << (w - 1)) + 1, rng.bits(w), rng.bits(w), rng.bits(9)]:
+            out.append("fpd exp_dig %d %x %x" % (rng.below(2), rng.choice(bases), d))
+        mont_small = [j * Ri % p for j in (1, 2, 3, 4, 5, 1 << 10, 1 << 63, 1 << 64, 1 << 128, 1 << (fb - 2), p - 1, p - 2, (p - 1) // 2)]
+        # powers of the digit base +-1 and their complements: multi-digit values whose low digit is 1 / all-ones (the `used == 1 &&
+        # dp[0] == 1` exits of the binary algorithms), also reached from p by one subtraction
+        basepm = [(1 << (w * i)) + d for i in range(1, n) for d in (1, -1)]
+        basepm += [p - x for x in basepm] + [(p - x) // 2 for x in basepm[:2]]
+        invops = [0, 1, 2, 3, 4, p - 1, p - 2, (p - 1) // 2, (p + 1) // 2, 1 << 64, 1 << 128, 1 << (fb - 2), (1 << 64) - 1, Ri, R % p,
+                  uni(), uni(), uni()] + mont_small + basepm
+        for a in invops:
+            for op in INVS:
+                if rng.chance(2, 3) or a in (0, 1, p - 1):
+                    out.append("fp1 %s %d %x" % (op, rng.below(2), a % p))
+        for ln in [1, 2, 3, 4, 5, 6, 7, 8, 9, 16, 17, 24]:
+            els = [rng.choice([uni(), uni(), 1, p - 1, 2, rng.bits(64)]) or 1 for _ in range(ln)]
+            out.append("fpsim %d %s" % (rng.below(2), " ".join("%x" % x for x in els)))
+            if ln >= 2 and rng.chance(1, 2):
+                eq = [els[0]] * ln
+                out.append("fpsim %d %s" % (rng.below(2), " ".join("%x" % x for x in eq)))
+            for pos in (0, ln // 2, ln - 1):
+                z = list(els)
+                z[pos] = 0
+                if rng.chance(1, 2) or ln <= 3:
+                    out.append("fpsim %d %s" % (rng.below(2), " ".join("%x" % x for x in z)))
+        for a in [0, 1, 2, 3, 4, 9, p - 1, p - 2, p - 4, (p - 1) // 2, uni(), uni(), uni(), uni()]:
+            for op in ("srt", "crt", "smb", "smb_basic", "smb_binar", "smb_divst", "smb_jmpds", "smb_lower", "is_sqr"):
+                out.append("fp1 %s %d %x" % (op, rng.below(2), a % p))
+                out.append("fp1 %s %d %x" % (op, rng.below(2), a * a % p))
+    return out
+
+
 def _param(exe, pid):
     out = subprocess.run([exe], input="fp_param %d\n" % pid, stdout=subprocess.PIPE, stderr=subprocess.DEVNULL, text=True, timeout=60).stdout
     kv = dict(t.split("=") for t in out.split()[1:] if "=" in t)
@@ -146,6 +228,7 @@ def streams(ctx, scale=1):
             p = int(kv["p"], 16)
             lines.append("fp_param %d" % pid)
             lines += root_sweep(ctx.rng, p, 12 * scale)
+            lines += alg_sweep(ctx.rng, p, 64, int(kv["digs"]), scale)
             lines += gen_lines(ctx.rng, p, 64, int(kv["digs"]), per)
         res.append({"name": "fp-" + cfg, "cfg": cfg, "exe": exe, "lines": lines})
     return res
